@@ -62,7 +62,7 @@ def join(toks):
 EXPRESS_INS = ["(", ")", ";", ":", ",", "'", "(*", "*)", "--", ".", "\\", "[", "]", "END_TYPE"]
 
 
-def edits(pieces, ins, work, key):
+def edits(pieces, ins, work, key, stride=1):
     """TLC's single-edit mutants of a piece sequence: [dict(op, i, p, expect, seq)] with seq = list of spellings"""
     hs = {}
     d = mkdir(os.path.join(work, "tokmut"))
@@ -76,7 +76,7 @@ def edits(pieces, ins, work, key):
             f.write(json.dumps({"h": hs.setdefault(s, len(hs) + 1)}) + "\n")
     got = []
     r = tlc.run_tlc("TokMut", None, workers=4, timeout=900, env={"TOKS": tp, "INS": ip}, on_case=got.append,
-                    cfg_text="INIT Init\nNEXT Next\nINVARIANT Emit\nINVARIANT SaneInv\n")
+                    cfg_text="CONSTANT Stride = %d\nINIT Init\nNEXT Next\nINVARIANT Emit\nINVARIANT SaneInv\n" % stride)
     if r.rc != 0 or r.errors or r.violated or not got:
         raise InfraError("TokMut failed: rc=%s %s" % (r.rc, r.tail[-10:]))
     os.unlink(tp)
@@ -94,10 +94,10 @@ def edits(pieces, ins, work, key):
     return out, sp
 
 
-def mutants(text, work, with_ins=True):
-    """[dict(op, i, expect, text, ctx, tok)] for every single-token mutant of an EXPRESS text"""
+def mutants(text, work, with_ins=True, stride=1):
+    """[dict(op, i, expect, text, ctx, tok)] for every single-token mutant of an EXPRESS text (every stride-th position)"""
     toks = tokenize(text)
-    got, sp = edits(toks, EXPRESS_INS if with_ins else [], work, sha(text)[:10])
+    got, sp = edits(toks, EXPRESS_INS if with_ins else [], work, sha(text)[:10], stride)
     out = []
     for m in got:
         i = m["i"]
@@ -111,3 +111,15 @@ def char_mutants(text, start, ins, work):
     pieces = [("op", ch, False) for ch in text[start:]]
     got, sp = edits(pieces, ins, work, sha(text)[:10])
     return [(m["op"], m["i"], m["p"], text[:start] + "".join(m["seq"])) for m in got]
+
+
+P21TOK = re.compile(r"""'(?:[^']|'')*'|"[^"]*"|/\*.*?\*/|#\d+|[A-Za-z_][A-Za-z0-9_]*|\.[A-Za-z_0-9]+\.|[+-]?\d+\.\d*(?:E[+-]?\d+)?|[+-]?\d+|\S""", re.S)
+P21_INS = ["(", ")", ",", ";", "'", "$", "*", "#", "=", "/*", "*/", "&SCOPE", "ENDSEC", "!"]
+
+
+def p21_token_mutants(text, start, end, work, with_ins=True):
+    """single-token edits of the DATA section text[start:end] of a Part 21 file: [(op, i, p, new text)]"""
+    toks = P21TOK.findall(text[start:end])
+    got, sp = edits([("op", t, False) for t in toks], P21_INS if with_ins else [], work, "p" + sha(text)[:9])
+    return [(m["op"], m["i"], m["p"], text[:start] + " ".join(m["seq"]).replace(" ; ", ";\n") + "\n" + text[end:]) for m in got
+            if m["op"] not in ("undecl", "tokw", "tolit")]
